@@ -76,7 +76,12 @@ def expected(kind, data, ops, truncated):
     consumed = False
     dead = False
     failed_form = False
+    failed_body = False
     for op in ops:
+        if dead and failed_body and op in ("body", "stream"):
+            # the failed `body` stays cached as it is: the same disconnect error again, for the body and for a stream replay
+            out.append(("exc", "ClientDisconnect"))
+            continue
         if dead:
             out.append(("skip", None))
             continue
@@ -110,6 +115,7 @@ def expected(kind, data, ops, truncated):
                 continue
             if truncated:
                 dead = True
+                failed_body = failed_body or op == "body"
                 out.append(("exc", "ClientDisconnect"))
                 continue
             cached = data
